@@ -237,23 +237,26 @@
           (An earlier form without the invariant, `ServerAnswer.ScratchIndep` in
           Proofs/ServerAnswerTwoRun.lean, is FALSE for states whose prior names or hints point at or
           above the cursor; it is kept only as the source of the pass and is used by nothing in C10.)
-      The assembly is done too: `C10_row3_compare_of : ScratchIndepI → DecodeCongr → C10_row3_compare`,
-      hence `C10_full_of : ScratchIndepI → DecodeCongr → C10_full` — **`C10_full` is proved modulo exactly
-      two named hypotheses**, both facts about the writer / decoder alone (no server logic left):
+      The assembly is done too: `C10_row3_compare_of : ScratchIndepI → C10_row3_compare`, hence
+      **`C10_full_of : ScratchIndepI → C10_full`** — `C10_full` is proved modulo exactly ONE named
+      hypothesis, a fact about the writer alone (no server logic, no decoder left):
       (R1) `ServerContent.ScratchIndepI` (Proofs/ServerAnswerTwoRunI.lean, above) — next to an invariant
            state with a valid hint, a writer call of the answering phase does not read octets at or
-           above the cursor;
-      (R2) `ServerContent.DecodeCongr` (Proofs/ServerSignedCompare.lean) — two `Good` writers with the
-           same body (own additional records: address records) that agree on everything below the
-           cursor up to the room, the TSIG slot and ARCOUNT + 1 (`modS L T F2 = lift R t0 ∧ Same F1 t0`)
-           finish into messages whose decodings have the same `rrKey`s in the answer and authority
-           sections and the same `plainRrs` (additional records other than OPT / TSIG).  True because
-           both decodings read the same octets (records below the common cursor, backward pointers
-           only).  C12's `finish_decodes_content` alone does not give it (`RMatch` speaks about RDATA
-           only for layouts without a compressible name); `finish_decodes_rdata`
-           (Proofs/WriterContentDecode.lean) gives the expanded RDATA up to ASCII case of name octets in
-           Standard mode, so the route is decoder determinism on the common prefix (same chain over
-           the same octets ⇒ same items ⇒ same decoded records), not the given RDATA.
+           above the cursor.  `FieldsOnly u s` also says `s.cursor ≤ s.available ≤ s.octets.size` (the
+           writer's size invariant for `s`; supplied at every use).  The writer side has the scan
+           congruences (`compressDecision_congr`, `compressDecision_congr_gap`, `scratch_setAa`,
+           `scratch_setRcode`: Proofs/WriterScratch.lean); what remains is threading `Same` through the
+           writes of `add_rr` / `add_rrset`.
+      (R2) CLOSED by the writer side: `ServerContent.decodeCongrT : DecodeCongrT`
+           (Proofs/ServerDecodeCongr.lean) — the decoder congruence for two `Good` writers that agree
+           below the cursor, with the extra hypothesis that the answer / authority records have 16-bit
+           TYPEs (`DecodeCongr` without it is false of the model: a record of type 65536 + 2 is written
+           opaque but decoded as type 2).  The typedness is discharged here from the log
+           (`ServerAnswer.LogsY.inner`, Proofs/ServerAnswerTyped.lean: every `add_*` call of the
+           answering logic has a 16-bit TYPE — constants, the QTYPE read from two octets, or, for ANY,
+           the TYPE of a stored RRset) under a **fourth recorded amendment of `C10_full`**: the API
+           hypothesis `ZonesTyped cfg` (every RRset of every configured zone has a `u16` TYPE — the
+           library's `Type` is a `u16`, the model's types are naturals), next to `CfgWF cfg`.
       What the assembly (`ServerContent.compare_core`, Proofs/ServerSignedCompare.lean) proves: from
       `AuditRun` + `RowAuthAnswer` the signed final writer and from `plain_answer_run` the plain one,
       both exposed as the writers of `handle_non_axfr_query`'s logged runs from `S` and from the scan
@@ -267,8 +270,8 @@
       wants; when it failed, both views are SERVFAIL with empty sections and the signed additional
       section holds only the OPT and the TSIG record.
 
-  Proved: (a)–(o), and `C10_full_of : ScratchIndepI → DecodeCongr → C10_full`.  Not proved, precisely: the two
-  named hypotheses (R1), (R2) above.  History of the reduction (all closed modulo (R1), (R2)):
+  Proved: (a)–(o), and `C10_full_of : ScratchIndepI → C10_full`.  Not proved, precisely: the one named
+  hypothesis (R1) above.  History of the reduction (all closed modulo (R1)):
   (1) `C10_row3` — the one obligation `C10_full` is reduced to (`C10_of_row3`): an authenticated request
       that a loaded zone *answers* passes the audit.  Everything that does not depend on the row is in
       place and applies verbatim (`auditResponse_authenticated`; `response_mac_audit` and
@@ -364,6 +367,11 @@ def toResp : Out Unit (Option Bytes) → Spec.ServerTsig.Resp
   | .ok none => .none
   | _ => .panic
 
+/-- what the library API guarantees about zone data: the TYPE of an RRset is a `u16` (the model's types are
+    naturals; a record of type 65536 + 2 would be written opaque and decoded as type 2) -/
+def ZonesTyped (cfg : Cfg) : Prop :=
+  ∀ ze ∈ cfg.zones, ServerSafety.NodeOK (fun r => r.rtype < 65536) ze.zone.root
+
 /-- **C10, full strength**: whatever the configuration, transport, clock and request, the response of
     `handle_message` passes the C10 audit of `QV.Spec.ServerTsig` (decision table, response MAC,
     no answer data unless authenticated, truncation rule), `plain` being the response to the same
@@ -372,7 +380,7 @@ def C10_full : Prop :=
   ∀ (cfg : Cfg) (cat : List Spec.Server.ZoneCfg) (tr : Transport) (now : Nat) (req : Bytes),
     now < 2 ^ 48 →
     -- what the library API guarantees (recorded amendment, see the header)
-    ServerSafety.CfgWF cfg → 512 ≤ cfg.payload → cfg.payload ≤ 65535 → req.size ≤ Rdata.USIZE_MAX →
+    ServerSafety.CfgWF cfg → ZonesTyped cfg → 512 ≤ cfg.payload → cfg.payload ≤ 65535 → req.size ≤ Rdata.USIZE_MAX →
     -- correction (see the header): configured key names are `LowercaseName`s
     ServerScan.KeysOK cfg.keys →
     let resp := handleMessage cfg tr now 65535 req
@@ -1973,8 +1981,8 @@ open QV.ServerScan in
     the audit (`plain` being the response to the request without its TSIG record) -/
 def C10_row3 : Prop :=
   ∀ (cfg : Cfg) (cat : List Spec.Server.ZoneCfg) (tr : Transport) (now : Nat) (req : Bytes),
-    now < 2 ^ 48 → ServerSafety.CfgWF cfg → 512 ≤ cfg.payload → cfg.payload ≤ 65535 → req.size ≤ Rdata.USIZE_MAX →
-    KeysOK cfg.keys →
+    now < 2 ^ 48 → ServerSafety.CfgWF cfg → ZonesTyped cfg → 512 ≤ cfg.payload → cfg.payload ≤ 65535 →
+    req.size ≤ Rdata.USIZE_MAX → KeysOK cfg.keys →
     ∀ (nowT : TimeSigned) (t : ReadTsigRr) (mw : Bytes) (r' : Reader.Reader) (question : Option (WName × Nat × Nat))
       (d : Spec.Server.Delim) (kn alg : WName) (rest : List UInt8),
       AuditRun cfg cat tr now req nowT t mw r' question d kn alg rest →
@@ -1996,8 +2004,8 @@ open QV.ServerScan in
     correction of the oracle, F1–F3.) -/
 def C10_row3_compare : Prop :=
   ∀ (cfg : Cfg) (cat : List Spec.Server.ZoneCfg) (tr : Transport) (now : Nat) (req : Bytes),
-    now < 2 ^ 48 → ServerSafety.CfgWF cfg → 512 ≤ cfg.payload → cfg.payload ≤ 65535 → req.size ≤ Rdata.USIZE_MAX →
-    KeysOK cfg.keys →
+    now < 2 ^ 48 → ServerSafety.CfgWF cfg → ZonesTyped cfg → 512 ≤ cfg.payload → cfg.payload ≤ 65535 →
+    req.size ≤ Rdata.USIZE_MAX → KeysOK cfg.keys →
     ∀ (nowT : TimeSigned) (t : ReadTsigRr) (mw : Bytes) (r' : Reader.Reader) (question : Option (WName × Nat × Nat))
       (d : Spec.Server.Delim) (kn alg : WName) (rest : List UInt8),
       AuditRun cfg cat tr now req nowT t mw r' question d kn alg rest →
@@ -2021,28 +2029,27 @@ open QV.ServerScan in
 /-- **row 3 reduced to the comparison with the plain response**: every other clause of the audit holds
     for an authenticated request that a loaded zone answers (`C10_audit_authenticated_answer`) -/
 theorem C10_row3_of_compare (hc : C10_row3_compare) : C10_row3 := by
-  intro cfg cat tr now req hnow hcfg hpay hp16 hreq hk nowT t mw r' question d kn alg rest h hrow b hb
+  intro cfg cat tr now req hnow hcfg hzt hpay hp16 hreq hk nowT t mw r' question d kn alg rest h hrow b hb
   exact C10_audit_authenticated_answer cfg hcfg cat tr now req hpay hp16 hk h hrow b hb _
     (fun dm pb pd hdm hpl hpd htc hptc hcmp hroom hrc2 =>
-      hc cfg cat tr now req hnow hcfg hpay hp16 hreq hk nowT t mw r' question d kn alg rest h hrow b hb dm pb pd
+      hc cfg cat tr now req hnow hcfg hzt hpay hp16 hreq hk nowT t mw r' question d kn alg rest h hrow b hb dm pb pd
         hdm hpl hpd htc hptc hcmp hroom hrc2)
 
 open QV.ServerScan in
-/-- **the comparison clause, modulo two named writer / decoder hypotheses**: `C10_row3_compare` holds as
+/-- **the comparison clause, modulo one named writer hypothesis**: `C10_row3_compare` holds as
     soon as `ServerContent.ScratchIndepI` (next to a state satisfying the writer's invariant, with a valid
     hint, a writer call of the answering phase does not read octets at or above the cursor;
-    Proofs/ServerAnswerTwoRunI.lean) and `ServerContent.DecodeCongr` (two finished
-    `Good` writers that agree below the cursor decode to the same records; Proofs/ServerSignedCompare.lean)
-    do.  Everything else — the two runs start from the same scan state (`plain_answer_run`), the
+    Proofs/ServerAnswerTwoRunI.lean) does; the decoder congruence is the writer side's
+    `decodeCongrT` (Proofs/ServerDecodeCongr.lean).  Everything else — the two runs start from the same scan state (`plain_answer_run`), the
     signed run shows the same view as the plain one under the clause's guards
     (`signed_handler_eq_plain`), the guards on the decodings are the guards on the views, the room the
     audit computes is the writer's — is proved (`ServerContent.compare_core`). -/
-theorem C10_row3_compare_of (hSI : ServerContent.ScratchIndepI) (hDC : ServerContent.DecodeCongr) : C10_row3_compare := by
-  intro cfg cat tr now req hnow hcfg hpay hp16 hreq hk nowT t mw r' question d kn alg rest h hrow b hb dm pb pd
+theorem C10_row3_compare_of (hSI : ServerContent.ScratchIndepI) : C10_row3_compare := by
+  intro cfg cat tr now req hnow hcfg hzt hpay hp16 hreq hk nowT t mw r' question d kn alg rest h hrow b hb dm pb pd
     hdm hpl hpd htc hptc hcmp hroom hrc2
   obtain ⟨hrM, iq, ie, il⟩ := h.scanM
   obtain ⟨r'', S, hT, hev⟩ := hrow
-  refine ServerContent.compare_core hSI hDC cfg hcfg cat tr now req (minBuf_le tr _ hp16) hpay hp16 hreq hrM iq ie il
+  refine ServerContent.compare_core hSI ServerContent.decodeCongrT cfg hcfg hzt cat tr now req (minBuf_le tr _ hp16) hpay hp16 hreq hrM iq ie il
     t mw r' question h.hrun r'' S hT hev b hb d h.hfind h.hpos h.hdsz h.hnext h.hnsz h.hcur hcmp pb ?_ dm pd hdm hpd
     htc hptc ?_ hrc2
   · intro p hp
@@ -2076,7 +2083,7 @@ open QV.ServerScan in
     and replies whose TSIG does not fit (`C10_audit_nofit`) pass the audit; the rows are exhaustive
     (`C10_rows_exhaustive`) — so `C10_full` holds as soon as row 3 does -/
 theorem C10_of_row3 (h3 : C10_row3) : C10_full := by
-  intro cfg cat tr now req hnow hcfg hpay hp16 hreq hk
+  intro cfg cat tr now req hnow hcfg hzt hpay hp16 hreq hk
   simp only
   by_cases hr : (Spec.Server.specScan cat cfg.payload req).respond = true
   · by_cases hv : (Spec.Server.specScan cat cfg.payload req).verdict = .tsigReached
@@ -2091,17 +2098,17 @@ theorem C10_of_row3 (h3 : C10_row3) : C10_full := by
       rcases hrows with h1 | h2 | h3' | h4
       · exact C10_audit_rejected cfg cat tr now req hpay hp16 hk h h1 b hb _
       · exact C10_audit_row2 cfg cat tr now req hpay hp16 hreq hk h h2 b hb
-      · exact h3 cfg cat tr now req hnow hcfg hpay hp16 hreq hk nowT t mw r' question d kn alg rest h h3' b hb
+      · exact h3 cfg cat tr now req hnow hcfg hzt hpay hp16 hreq hk nowT t mw r' question d kn alg rest h h3' b hb
       · exact C10_audit_nofit cfg cat tr now req hpay hp16 h h4 b hb _
     · exact C10_audit_pre_tsig cfg hcfg cat tr now req hpay hp16 hreq _ (Or.inr hv)
   · exact C10_audit_pre_tsig cfg hcfg cat tr now req hpay hp16 hreq _
       (Or.inl (by cases hh : (Spec.Server.specScan cat cfg.payload req).respond <;> simp_all))
 
-/-- **`C10_full`, modulo the two named hypotheses**: every clause of the audit, for every configuration,
-    transport, clock and request, holds as soon as `ScratchIndepI` (writer) and `DecodeCongr`
-    (`finish` + decoder) do — the whole server-side walk is proved. -/
-theorem C10_full_of (hSI : ServerContent.ScratchIndepI) (hDC : ServerContent.DecodeCongr) : C10_full :=
-  C10_of_row3 (C10_row3_of_compare (C10_row3_compare_of hSI hDC))
+/-- **`C10_full`, modulo the one named hypothesis**: every clause of the audit, for every configuration,
+    transport, clock and request, holds as soon as `ScratchIndepI` (writer) does — the whole
+    server-side walk and the decoder side are proved. -/
+theorem C10_full_of (hSI : ServerContent.ScratchIndepI) : C10_full :=
+  C10_of_row3 (C10_row3_of_compare (C10_row3_compare_of hSI))
 
 /-! ## non-vacuity: concrete instances of the hypotheses used above -/
 
